@@ -220,9 +220,12 @@ def _clip(a, a_min=None, a_max=None, **kw):
     return _map(f, a)
 
 
-def _minimum(a, b):
+def _minimum(a, b, out=None, **kw):
+    if out is not None:
+        out[...] = _minimum(a, b)
+        return out
     if not (is_sym(a) or is_sym(b)):
-        return np.minimum(a, b)
+        return np.minimum(a, b, **kw)
     aa, bb = np.broadcast_arrays(_oarr(a), _oarr(b))
     out = np.empty(aa.shape, dtype=object)
     for i in np.ndindex(aa.shape):
@@ -230,9 +233,12 @@ def _minimum(a, b):
     return out if out.shape else out[()]
 
 
-def _maximum(a, b):
+def _maximum(a, b, out=None, **kw):
+    if out is not None:
+        out[...] = _maximum(a, b)
+        return out
     if not (is_sym(a) or is_sym(b)):
-        return np.maximum(a, b)
+        return np.maximum(a, b, **kw)
     aa, bb = np.broadcast_arrays(_oarr(a), _oarr(b))
     out = np.empty(aa.shape, dtype=object)
     for i in np.ndindex(aa.shape):
